@@ -165,6 +165,13 @@ func cmdCore(o *Out, line string, f []string) {
 	var adds []byte
 	var accepted [][]byte
 	for _, h := range sec[1] {
+		if h == "R" {
+			// an intermediate Resolve whose result is discarded: resolving does not change a collector
+			if !isStreaming(ctor) {
+				_, _ = c.Resolve()
+			}
+			continue
+		}
 		b := unhx(h)
 		doc, err := birch.ReadDocument(b)
 		if err != nil {
@@ -192,17 +199,27 @@ func cmdCore(o *Out, line string, f []string) {
 			resolve = "err"
 		}
 	}
+	// resolving again yields the same bytes (a snapshot, not a consumption)
+	again := "same"
+	if !isStreaming(ctor) {
+		if out2, err2 := c.Resolve(); (err2 != nil) != (resolve == "err") || !bytes.Equal(out, out2) {
+			again = "differs"
+		}
+	}
 	ctx, cancel := context.WithCancel(context.Background())
 	defer cancel()
 	wire := wireDocs(out)
 	tables, terr := chunkTables(ctx, out)
 	docs, derr := iterDocs(ftdc.ReadStructuredMetrics(ctx, bytes.NewReader(out)))
-	o.emit(line, fmt.Sprintf("adds=%s resolve=%s wire=[%s] tables=%s[%s] docs=%s[%s]", adds, resolve,
+	o.emit(line, fmt.Sprintf("adds=%s resolve=%s again=%s wire=[%s] tables=%s[%s] docs=%s[%s]", adds, resolve, again,
 		strings.Join(wire, " "), errStr(terr), tables, errStr(derr), strings.Join(docs, " ")))
 	o.count("ctor-" + ctor)
 	o.count(fmt.Sprintf("ndocs<%d", 4*(1+len(accepted)/4)))
 	o.nontrivial(line)
 
+	if again != "same" {
+		o.violation(line, "a second Resolve of the unchanged collector does not return the same stream", nil)
+	}
 	// ---- oracle for C03 (encode direction): the payload is the canonical encoding ----
 	for _, wd := range wire {
 		if strings.HasPrefix(wd, "X:") {
@@ -316,6 +333,9 @@ func coreLine(rng *rand.Rand, ctor string, n int, schema []*Schema, count int) s
 	var hs []string
 	for i := 0; i < count; i++ {
 		hs = append(hs, hx(docBytes(instantiate(rng, schema, i))))
+		if i+1 < count && rng.Intn(12) == 0 {
+			hs = append(hs, "R") // an intermediate Resolve
+		}
 	}
 	return fmt.Sprintf("core %s %d | %s", ctor, n, strings.Join(hs, " "))
 }
